@@ -35,6 +35,25 @@ pub fn run(mut config: Config) -> ::anyhow::Result<()> {
         config.socket_workers = available_parallelism().map(Into::into).unwrap_or(1);
     };
 
+    // Responses are serialized into fixed-size buffers. Refuse configurations
+    // that allow responses that wouldn't fit (they would silently be dropped)
+    {
+        let response_peer_len = if config.network.use_ipv6 { 18 } else { 6 };
+        let max_announce_response_len = config
+            .protocol
+            .max_response_peers
+            .saturating_mul(response_peer_len)
+            .saturating_add(20);
+
+        if max_announce_response_len > common::BUFFER_SIZE {
+            return Result::Err(anyhow::anyhow!(
+                "protocol.max_response_peers is too large: announce responses of up to {} bytes would not fit in send buffer of {} bytes",
+                max_announce_response_len,
+                common::BUFFER_SIZE
+            ));
+        }
+    }
+
     let num_sockets_per_worker =
         if config.network.use_ipv4 { 1 } else { 0 } + if config.network.use_ipv6 { 1 } else { 0 };
 
